@@ -478,6 +478,29 @@ def run(check, repo: Repo) -> None:
     check.decide(ok, "C20-R3", "CustomNormalization._set_limits freezes the limits in a ManualInterval (vmin→0, vmax→1 for later calls)", "", mod.line(sl),
                  fail_detail="_set_limits does not freeze (vmin, vmax) from get_limits into ManualInterval")
 
+    # the frozen interval is built from the values that went THROUGH the vmin / vmax setters of matplotlib's Normalize (which turn NumPy scalars into Python
+    # numbers), not from the raw result of get_limits(): a raw np.int8 / np.int16 limit makes `vmax − vmin` wrap in the data's own dtype
+    from ..core.repo import TupleItem
+    n_frz = 0
+    for c in calls_in(sl):
+        if call_name(c) != "ManualInterval" or len(c.args) != 2:
+            continue
+        n_frz += 1
+        raw = []
+        for a in c.args:
+            if isinstance(a, ast.Name):
+                for d_ in definitions(sl, a.id):
+                    v_ = d_.value if isinstance(d_, TupleItem) else d_
+                    if isinstance(v_, ast.AST) and any(isinstance(x, ast.Call) and isinstance(x.func, ast.Attribute) and x.func.attr == "get_limits" for x in ast.walk(v_)):
+                        raw.append(a.id)
+            elif any(isinstance(x, ast.Call) and isinstance(x.func, ast.Attribute) and x.func.attr == "get_limits" for x in ast.walk(a)):
+                raw.append(unparse(a)[:30])
+        check.decide(not raw, "C20-R3", "CustomNormalization._set_limits: the frozen ManualInterval receives the sanitised self.vmin / self.vmax, not the raw result of get_limits()",
+                     unparse(c)[:60], mod.line(c), definite=True,
+                     fail_detail=f"`{unparse(c)[:60]}`: {raw} come straight from get_limits(data) — for signed narrow-integer data these are NumPy scalars of the data's dtype, and the "
+                                 f"interval's `vmax − vmin` wraps around (int16 data spanning [−20000, 20000]: span −25536, every pixel maps to 0)")
+    check.floor("_set_limits: frozen intervals", n_frz, 1)
+
     # ---- R4b derived accessors of the (mutable) stretch/interval dataclasses are recomputed on every access ----------------------------------
     n_acc = 0
     for cname_, cls_ in classes.items():
